@@ -266,7 +266,8 @@ pub fn run(ctx: &Ctx) -> i32 {
       }
       Job::Periodic(name, d) => {
         if let Ok(Some(zoc)) = guarded(|| zoc_by_name(name, d)) {
-          let pairs = crate::alpha::periodic_pairs(d);
+          let mut pairs = crate::alpha::periodic_pairs(d);
+          pairs.extend(crate::alpha::byte_permutation_pairs(d));
           for &(i, j) in &pairs {
             if let Some(v) = check_ij(name, zoc, d, i, j) {
               part.viol(v);
